@@ -170,31 +170,91 @@ def run(rep, prog, tier):
            what='both arrays are masked where either was masked')
     # ---- residuals -----------------------------------------------------------------------------------------------------------
     lr = prog.func(INF, 'linear_Poisson_residual')
-    r = [n for n in lr.body if isinstance(n, ast.Assign) and ast.unparse(n.targets[0]) == 'resid']
-    try:
-        ok = bool(r) and lik_translator().tr(r[0].value).equals(lik_translator().tr(ast.parse('(model - data)/numpy.sqrt(model)', mode='eval').body))
-    except AlgebraError:
-        ok = False
-    rets = [ast.unparse(n.value) for n in own_nodes(lr) if isinstance(n, ast.Return)]
-    rep.ob('R-ALG', 'linear_Poisson_residual', ok and rets == ['resid'], 'resid = %s; returns %s' % (ast.unparse(r[0].value) if r else '?', rets), m.rel, lr.lineno, what='(model - data)/sqrt(model), positive when the model exceeds the data')
     ar = prog.func(INF, 'Anscombe_Poisson_residual')
-    try:
-        env = {}
-        T = lik_translator(env)
-        for n in ar.body:
-            if isinstance(n, ast.Assign) and isinstance(n.targets[0], ast.Name) and n.targets[0].id in ('datatrans', 'modeltrans', 'resid'):
-                T.env[n.targets[0].id] = T.tr(n.value)
-        ref = lik_translator().tr(ast.parse('1.5*((data**(2./3) - data**(-1./3)/9) - (model**(2./3) - model**(-1./3)/9))/model**(1./6)', mode='eval').body)
-        ok = T.env['resid'].equals(ref)
-    except (AlgebraError, KeyError):
-        ok = False
-    rets = [ast.unparse(n.value) for n in own_nodes(ar) if isinstance(n, ast.Return)]
-    rep.ob('R-ALG', 'Anscombe_Poisson_residual', ok and rets == ['-resid'], 'resid = 1.5*((d^(2/3) - d^(-1/3)/9) - (m^(2/3) - m^(-1/3)/9))/m^(1/6); returns %s' % rets, m.rel, ar.lineno,
-           what='Anscombe residual with the documented sign (model minus data)')
-    for fn in (lr, ar):
-        mk = [n for n in own_nodes(fn) if isinstance(n, ast.Assign) and ast.unparse(n.targets[0]) == 'tomask']
-        okk = bool(mk) and ast.unparse(mk[0].value) == 'numpy.logical_and(model <= mask, data <= mask)' and any(ast.unparse(n.value) == 'numpy.ma.masked_where(tomask, resid)' for n in own_nodes(fn) if isinstance(n, ast.Assign))
-        rep.ob('R-TPL', '%s masking' % fn.name, okk, 'entries with model <= mask and data <= mask are masked', m.rel, mk[0].lineno if mk else fn.lineno, what='documented residual masking')
+    # what the residual functions return without and with a masking threshold: abstract execution (folding guards switched off; they
+    # have their own obligations below); the residual is compared algebraically, the masking condition as a set of comparisons
+    from sa import miniexec as mx
+    from fractions import Fraction as _F
+
+    def res_leaf(x):
+        if isinstance(x, mx.Sym) and x.text in ('model', 'data'):
+            return Rat.atom(x.text)
+        c = mx.call_of(x, 'sqrt')
+        if c is not None and len(c[0]) == 1:
+            return Rat.atom('POW[%s,1/2]' % mx.to_rat(c[0][0], res_leaf).canon())
+        c = mx.call_of(x, 'power')
+        if c is not None and len(c[0]) == 2 and isinstance(c[0][1], (int, float)):
+            return Rat.atom('POW[%s,%s]' % (mx.to_rat(c[0][0], res_leaf).canon(), _F(c[0][1]).limit_denominator(1000)))
+        if isinstance(x, mx.Sym) and x.struct and x.struct[0] == 'binop' and x.struct[1] == '**' and isinstance(x.struct[3], (int, float)):
+            return Rat.atom('POW[%s,%s]' % (mx.to_rat(x.struct[2], res_leaf).canon(), _F(x.struct[3]).limit_denominator(1000)))
+        return None
+
+    def strip(v):
+        """(sign, masking condition or None, residual) of  [-] masked_where(cond, [-] r)"""
+        sign = 1
+        cond = None
+        for _ in range(4):
+            if isinstance(v, mx.Sym) and v.struct and v.struct[:3] == ('binop', '-', 0):
+                sign, v = -sign, v.struct[3]
+                continue
+            c = mx.call_of(v, 'masked_where')
+            if c is not None and len(c[0]) == 2 and cond is None:
+                cond, v = c[0][0], c[0][1]
+                continue
+            break
+        return sign, cond, v
+
+    def cond_atoms(c):
+        """the masking condition as nested and/or of comparison texts"""
+        for nm_, tag_ in (('logical_and', 'and'), ('logical_or', 'or')):
+            cc = mx.call_of(c, nm_)
+            if cc is not None and len(cc[0]) == 2:
+                return (tag_, frozenset(cond_atoms(a) for a in cc[0]))
+        return mx.show(c).replace(' ', '')
+
+    def hook(nm, args, kwargs):
+        if nm == 'hasattr':
+            return False
+        return NotImplemented
+    specs = ((lr, 'linear_Poisson_residual', 1, '(model - data)/POWM', ('and', frozenset(['(model<=mask)', '(data<=mask)']))),
+             (ar, 'Anscombe_Poisson_residual', -1, None, ('or', frozenset([('and', frozenset(['(model<=mask)', '(data<=mask)'])), '(data==0)']))))
+    for fn, nm_, want_sign, _ref, want_cond in specs:
+        okv, okm, det = True, True, []
+        for masked in (False, True):
+            it = mx.Interp(prog, m, call_hook=hook)
+            try:
+                paths = it.run(fn, {'model': mx.Sym('model'), 'data': mx.Sym('data'), 'mask': mx.Sym('mask') if masked else None})
+            except mx.Undecidable as e:
+                raise AnalysisError('%s is not recognised: %s' % (nm_, e))
+            if len(paths) != 1 or paths[0][0][0] != 'return':
+                okv = False
+                det.append('%d paths' % len(paths))
+                continue
+            sign, cond, r = strip(paths[0][0][1])
+            try:
+                got = mx.to_rat(r, res_leaf)
+                M, D = Rat.atom('model'), Rat.atom('data')
+                if nm_.startswith('linear'):
+                    ref = (M - D) / Rat.atom('POW[%s,1/2]' % M.canon())
+                else:
+                    P = lambda b, e: Rat.atom('POW[%s,%s]' % (b.canon(), e))
+                    ref = Rat.const(_F(3, 2)) * ((P(D, '2/3') - P(D, '-1/3') / Rat.const(9)) - (P(M, '2/3') - P(M, '-1/3') / Rat.const(9))) / P(M, '1/6')
+                if not ((got.equals(ref) and sign == want_sign) or ((Rat.const(0) - got).equals(ref) and sign == -want_sign)):
+                    okv = False
+                    det.append('%s: returns %s%s' % ('with mask' if masked else 'no mask', '-' if sign < 0 else '', got.canon()[:90]))
+            except AlgebraError as e:
+                okv = False
+                det.append('not evaluable: %s' % e)
+            if masked:
+                if cond is None or cond_atoms(cond) != want_cond:
+                    okm = False
+                    det.append('masking condition %s' % (mx.show(cond)[:80] if cond is not None else 'absent'))
+            elif cond is not None:
+                okm = False
+                det.append('masks without a threshold')
+        rep.ob('R-ALG', nm_, okv, '; '.join(det[:2]) if not okv else ('(model - data)/sqrt(model)' if want_sign > 0 else 'minus 1.5*((d^(2/3) - d^(-1/3)/9) - (m^(2/3) - m^(-1/3)/9))/m^(1/6)'), m.rel, fn.lineno,
+               what='(model - data)/sqrt(model), positive when the model exceeds the data' if want_sign > 0 else 'Anscombe residual with the documented sign (model minus data)')
+        rep.ob('R-TPL', '%s masking' % nm_, okm, '; '.join(det[:2]) if not okm else 'entries with model <= mask and data <= mask are masked', m.rel, fn.lineno, what='documented residual masking')
     # ---- auto-fold guards ---------------------------------------------------------------------------------------------------------
     for q in ('ll_per_bin', 'linear_Poisson_residual', 'Anscombe_Poisson_residual', 'optimal_sfs_scaling'):
         fn = prog.func(INF, q)
